@@ -16,7 +16,7 @@ INF = 1 << 200
 TYR = {'u8': (0, 255), 'u16': (0, 65535), 'u32': (0, (1 << 32) - 1), 'u64': (0, (1 << 64) - 1), 'usize': (0, (1 << 64) - 1),
        'u128': (0, (1 << 128) - 1), 'i8': (-128, 127), 'i16': (-32768, 32767), 'i32': (-(1 << 31), (1 << 31) - 1),
        'i64': (-(1 << 63), (1 << 63) - 1), 'isize': (-(1 << 63), (1 << 63) - 1), 'bool': (0, 1), 'char': (0, 0x10ffff)}
-ARMED_INT = ('usize', 'u32', 'u16', 'u8', 'i32', 'isize')
+ARMED_INT = ('usize', 'u32', 'u16', 'u8', 'i32', 'isize', 'u128', 'i128', 'i64', 'i16', 'i8')
 
 PANIC_CALLS = ('unwrap', 'expect', 'index', 'index_mut', 'copy_from_slice', 'clone_from_slice', 'insert', 'remove', 'split_at',
                'swap', 'unwrap_err', 'expect_err')
